@@ -23,7 +23,7 @@ import numpy as np
 import flax.linen as nn
 
 SPEC = {
-  'exes': ['drv_c07'],
+  'exes': ['drv_c07', 'drv_c05'],
   'rule': (
     'One case = (polynomial program of get/has/put/variable-with-init instructions, module attributes, 1-3 primal inputs of '
     'pytree shape scalar | 2-tuple | 2-dict, variable tree, `mutable` filter, root or named-child placement with sibling '
@@ -45,7 +45,7 @@ SPEC = {
     'second-order agreement (the nn.vjp / nn.jvp / nn.value_and_grad results differentiated again by an outer jax.grad w.r.t. every variable collection and input) is tied by correspondence only: the model has no derivative of a derivative (A-AD)',
   ],
   'model_partial': [
-    'multi-scope lifting (scope trees with several scopes: _dedup_scopes/_dup_scopes/_transpose) is not in the Lean model; nn.vjp(multi_scope=True) is tied by the implementation oracle only',
+    'multi-scope lifting: scope collection / hand-back (get_module_scopes / set_module_scopes) and _dedup_scopes / _dup_scopes are modelled (lean/Flax/Model/ModScopes.lean; theorem multi_scope_cotangent_positions here, set_get_module_scopes_id / dup_dedup_id in Props/C05) and tied by the modscopes correspondence on the real functions; pack over several scopes (per-scope groups, _transpose) and the cotangent values per scope are tied by the multiscope implementation oracle only',
     'A-AD (automatic differentiation is an abstract structure): the theorems establish what is differentiated, not the derivative; the numbers are tied by the three-voice exact comparison only',
   ],
 }
@@ -1049,6 +1049,12 @@ def run(ctx):
     run_case(ctx, drv, obj.get('case', obj))
   scale = 12 if thorough else 1
   plan = [('vjp', 110), ('jvp', 70), ('vag', 40), ('grad', 30), ('custom', 30)]
+  # the scope collection / hand-back the multi-scope vjp relies on: real get/set_module_scopes vs the Lean model
+  from harness.props import c05 as c05mod
+
+  drv5 = LeanDriver('drv_c05')
+  for _ in range(10 * scale):
+    c05mod.check_modscopes_case(ctx, drv5, c05mod.gen_modscopes_case(rng))
   cases = [gen_deepstate_case(rng) for _ in range(14 * scale)] + [gen_multiscope_case(rng) for _ in range(14 * scale)]
   for kind, n in plan:
     for _ in range(n * scale):
